@@ -166,7 +166,7 @@ var classKind = map[string][]string{
 	"ArrayList": {"list"}, "List": {"list"}, "ArrayTuple": {"tuple"}, "Tuple": {"list", "tuple", "pair"}, "HashSet": {"set"}, "Set": {"set"},
 	"HashMap": {"map"}, "Map": {"map"}, "HashRecord": {"rec"}, "Record": {"map", "rec"}, "Pair": {"pair"},
 	"ClosedRange": {"range"}, "OpenRange": {"range"}, "LeftOpenRange": {"range"}, "RightOpenRange": {"range"},
-	"Pt": {"obj:Pt", "obj:Pt3"}, "Pt3": {"obj:Pt3"}, "Bx": {"obj:Bx"},
+	"Pt": {"obj:Pt", "obj:Pt3", "obj:PtO"}, "Pt3": {"obj:Pt3"}, "Bx": {"obj:Bx"}, "PtO": {"obj:PtO"},
 }
 
 // narrow is the static type of a value that matched p, as far as the generator needs it (the right
@@ -779,7 +779,7 @@ func (g *g) deriveObj(v *V, ty *Ty, depth int) *P {
 			p.Name = d.Parent
 		}
 		if g.wantMiss() && ty.Any {
-			p.Name = []string{"Pt3", "Bx", "Pt"}[pick(g.t, 3, "cls")]
+			p.Name = []string{"Pt3", "Bx", "Pt", "PtO"}[pick(g.t, 4, "cls")]
 		}
 	}
 	pd := d
@@ -826,7 +826,11 @@ func subjectType(t *rapid.T, v *V) *Ty {
 	k := kindOfV(v)
 	spell := map[string]string{
 		"int": "Int", "float": "Float", "str": "String", "char": "Char", "sym": "Symbol", "bool": "Bool", "nil": "nil",
-		"obj:Pt": "Pt", "obj:Pt3": "Pt3", "obj:Bx": "Bx",
+		"obj:Pt": "Pt", "obj:Pt3": "Pt3", "obj:Bx": "Bx", "obj:PtO": "PtO",
+	}
+	if (k == "obj:Pt3" || k == "obj:PtO" || k == "obj:Pt") && pick(t, 100, "parenttyped") < 45 {
+		// statically the parent class, at run time possibly a subclass
+		return &Ty{Kinds: []string{"obj:Pt", "obj:Pt3", "obj:PtO"}, Src: "Pt"}
 	}
 	if s, ok := spell[k]; ok {
 		if k != "nil" && pick(t, 100, "exact") < 40 {
